@@ -34,6 +34,15 @@ def akai_small():
         {"name": "PAD-R", "n": 1500, "chain": [6], "seq": 3}]}]}]}
 
 
+def akai_pair():
+    """an L/R pair whose halves span five sectors each (left first on the disc): a cut inside the right half lies several
+    transcoder blocks after the start of both halves"""
+    return {"parts": [{"size": 16, "vols": [{"name": "VOL", "dir": [3], "files": [
+        {"name": "PAD-L", "n": 20000, "chain": [4, 5, 6, 7, 8], "seq": 1},
+        {"name": "PAD-R", "n": 20000, "chain": [9, 10, 11, 12, 13], "seq": 2},
+        {"name": "TAIL", "n": 500, "chain": [14], "seq": 3}]}]}]}
+
+
 def akai_subject(spec):
     model = A.model_from_spec(spec)
     img, layout = A.build_akai(model)
@@ -123,6 +132,8 @@ def subject(key):
             _SUBJ[key] = akai_subject(akai_big())
         elif key == "akai_small":
             _SUBJ[key] = akai_subject(akai_small())
+        elif key == "akai_pair":
+            _SUBJ[key] = akai_subject(akai_pair())
         elif key == "roland":
             _SUBJ[key] = roland_subject()
         else:
@@ -206,16 +217,16 @@ class Check(CheckBase):
 
     def shards(self):
         cases = []
-        for key in ("akai_small", "akai_big", "roland", "cdda"):
+        for key in ("akai_small", "akai_big", "akai_pair", "roland", "cdda"):
             img, samples, bounds = subject(key)
             cuts = set()
             for b in bounds:
                 for d in (-1, 0, 1):
                     if 0 <= b + d <= len(img):
                         cuts.add(b + d)
-            stride = {"akai_small": 509, "akai_big": 509, "roland": 65521, "cdda": 509}[key]
+            stride = {"akai_small": 509, "akai_big": 509, "akai_pair": 509, "roland": 65521, "cdda": 509}[key]
             if not self.quick:
-                stride = {"akai_small": 1, "akai_big": 16, "roland": 4096, "cdda": 1}[key]
+                stride = {"akai_small": 1, "akai_big": 16, "akai_pair": 16, "roland": 4096, "cdda": 1}[key]
             lo = R.DATA_FAT_OFF - 70000 if key == "roland" and self.quick else 0
             cuts.update(range(lo, len(img) + 1, stride))
             if key == "roland":
